@@ -48,6 +48,9 @@ func (u *Unknown) ReadFrom(r io.Reader) (int64, error) {
 	if err != nil {
 		return cr.readCount, err
 	}
+	if size > MaxMetadataSize {
+		return cr.readCount, ErrTooLong
+	}
 
 	codeSize := varint.UvarintSize(v)
 	sizeSize := varint.UvarintSize(size)
